@@ -6,6 +6,7 @@ import (
 	"context"
 	"errors"
 	"fmt"
+	"io"
 	"strings"
 	"testing"
 
@@ -23,7 +24,7 @@ import (
 type c14Call struct {
 	Dir      string `json:"dir,omitempty"` // stream: recv | send
 	Grant    bool   `json:"grant"`
-	Err      bool   `json:"err"`      // wrapped call returns an error
+	Err      int    `json:"err"`      // error the wrapped call returns: 0 nil, 1 generic, 2 io.EOF, 3 context.Canceled, 4 gRPC status, 5 context.DeadlineExceeded, 6 io.ErrUnexpectedEOF
 	Resp     int    `json:"resp"`     // which response object the wrapped call returns (0 = nil)
 	Classify int    `json:"classify"` // custom classifier's answer: 0 success, 1 ignore, 2 dropped
 	Code     int    `json:"code"`     // custom limit-exceeded classifier's status code
@@ -51,7 +52,7 @@ func genC14(t *rapid.T) c14Case {
 		return c14Call{
 			Dir:      rapid.SampledFrom([]string{"recv", "send"}).Draw(t, "dir"),
 			Grant:    rapid.IntRange(0, 3).Draw(t, "grant") > 0,
-			Err:      rapid.Bool().Draw(t, "err"),
+			Err:      rapid.SampledFrom([]int{0, 0, 0, 1, 1, 2, 3, 4, 5, 6}).Draw(t, "err"),
 			Resp:     rapid.IntRange(0, 3).Draw(t, "resp"),
 			Classify: rapid.IntRange(0, 2).Draw(t, "classify"),
 			Code:     rapid.IntRange(1, 16).Draw(t, "code"),
@@ -123,7 +124,7 @@ func runC14(_ *testing.T, c c14Case) (out kit.Outcome) {
 		return exceededResp, codes.Code(cur.Code), errors.New("over the limit")
 	}
 	resps := []any{nil, &struct{ a int }{1}, "text", 7}
-	callErr := errors.New("wrapped call failed")
+	callErrs := []error{nil, errors.New("wrapped call failed"), io.EOF, context.Canceled, status.Error(codes.Unavailable, "down"), context.DeadlineExceeded, io.ErrUnexpectedEOF}
 
 	var (
 		serverI grpc.UnaryServerInterceptor
@@ -182,10 +183,7 @@ func runC14(_ *testing.T, c c14Case) (out kit.Outcome) {
 		cur = call
 		grant = call.Grant || !c.CustomLimiter // the default limiter (limit 1000) always grants here
 		mark := len(log.ev)
-		var wantErr error
-		if call.Err {
-			wantErr = callErr
-		}
+		wantErr := callErrs[call.Err%len(callErrs)]
 		wantResp := resps[call.Resp]
 		var gotResp any
 		var gotErr error
@@ -267,11 +265,11 @@ func runC14(_ *testing.T, c c14Case) (out kit.Outcome) {
 		outcome := "success"
 		classified := false
 		if c.CustomClass {
-			if c.Kind != "stream" || call.Err {
+			if c.Kind != "stream" || call.Err != 0 {
 				outcome = c14Outcome[call.Classify]
 				classified = true
 			}
-		} else if call.Err {
+		} else if call.Err != 0 {
 			outcome = "dropped"
 		}
 		if outcome != "success" {
